@@ -7,7 +7,7 @@ D="$(cd "$1" && pwd)"; N="$(basename "$D")"
 WT="/tmp/wt-confirm-$N"
 git -C /repo worktree remove --force "$WT" >/dev/null 2>&1
 git -C /repo worktree add --detach "$WT" HEAD >/dev/null 2>&1 || { echo "worktree failed"; exit 2; }
-cd "$WT"
+cd "$WT"; export GMSSL_BIN="$WT/build/bin/gmssl"
 if ! git apply "$D/patch.diff"; then echo "$N: NOT-CONFIRMED patch does not apply to HEAD"; git -C /repo worktree remove --force "$WT"; exit 1; fi
 cmake -G Ninja -B build >/dev/null 2>&1 && cmake --build build -j16 >/dev/null 2>&1 || { echo "$N: NOT-CONFIRMED build fails with patch"; git -C /repo worktree remove --force "$WT"; exit 1; }
 TESTS=$(cd build && ctest -j8 --timeout 900 2>&1)
